@@ -173,7 +173,7 @@ def PayloadClause : Prop :=
         content ++ (if ty.isOptional then s%"?" else []) ++ s%": " ++ t ++ s%" }") ∧
   (∀ cfg e ck id cs ty c, Kotlin.caseFacts cfg e ck (.tuple id cs ty) = .ok c →
     ∃ t, c.payload = .content ck t ∧ Kotlin.formatType cfg e.genericTypes ty = .ok t) ∧
-  (∀ cfg e id cs ty st st' c, Swift.algebraicCase cfg e (.tuple id cs ty) st = .ok (c, st') →
+  (∀ U cfg e id cs ty st st' c, Swift.algebraicCase U cfg e (.tuple id cs ty) st = .ok (c, st') →
     ∃ t, c.payload = some ⟨Swift.kw t, ty.isOptional⟩ ∧
       Swift.formatType cfg e.genericTypes ty st = .ok (t, st')) ∧
   (∀ cfg e tag ck id cs ty c, e.keys = some (tag, ck) → Scala.caseFacts cfg e (.tuple id cs ty) = .ok c →
@@ -240,7 +240,7 @@ theorem doubleOptionClause : DoubleOptionClause := by
 theorem payloadClause : PayloadClause :=
   ⟨fun _ _ _ _ _ _ _ _ _ _ h => Ts.payload h,
    fun _ _ _ _ _ _ _ h => Kt.payload h,
-   fun _ _ _ _ _ _ _ _ h => Sw.payload h,
+   fun _ _ _ _ _ _ _ _ _ h => Sw.payload h,
    fun _ _ _ _ _ _ _ _ hk h => Sc.payload hk h,
    fun _ _ _ _ _ _ _ _ _ _ _ _ h => Go.payload h,
    fun _ _ _ _ _ _ _ _ _ _ _ h => Py.payload h⟩
